@@ -25,13 +25,19 @@ def gen_plan(base_seed, i, tier):
     rng = common.rng_for(base_seed, "C13", i)
     rows = common.pick_rows(rng, rng.randint(1, 4), {"mcs-based": 10})
     rows += common.pick_rows(rng, rng.randint(0, 2), {"rule-based": 1, "input-balanced": 1, "declined": 2})
+    if rng.random() < 0.3:  # the same reaction more than once in a batch
+        rows += [rng.choice(rows) for _ in range(rng.randint(1, 2))]
     rng.shuffle(rows)
     cfg = common.gen_config(rng, len(rows), thresholds=(0,))
     sim = common.gen_sim(rng, faults=rng.random() < 0.3)
     if sim.get("faults"):
         sim["faults"]["zombie_q"] = 0.0
-    return {"property": "C13", "kind": "sweep", "rows": rows, "config": cfg, "sim": sim,
+    plan = {"property": "C13", "kind": "sweep", "rows": rows, "config": cfg, "sim": sim,
             "draws": [round(rng.random(), 4), round(rng.random(), 2)], "max_t": 10 if tier == "quick" else 16}
+    if rng.random() < 0.2:
+        # the scoring step itself fails at its k-th call: batches may be lost, but no returned row may escape the threshold
+        plan["model_fault_calls"] = sorted({rng.randint(0, 3) for _ in range(2)})
+    return plan
 
 
 def names_threshold(issue, t):
@@ -121,6 +127,21 @@ def execute(plan):
         for inp, x, y in zip(rows_in, ra, rb):
             if y["solved"] and not x["solved"]:
                 vs.append(oracles.V("C13", "not_antitone", "antitone", "%s unsolved at threshold %r but solved at %r" % (inp, a, b)))
+    for k in plan.get("model_fault_calls") or []:
+        for t in [x for x in ts if x > 0][:3] + [1.0]:
+            cfg = dict(plan["config"])
+            cfg["threshold"] = t
+            sim = common.clone(plan["sim"])
+            f = sim.setdefault("faults", {"zombie_q": 0.0})
+            f.setdefault("explicit", []).append({"site": "model", "key": [k], "kind": "raise"})
+            r = runner.run_once({"rows": rows_in, "config": cfg, "sim": sim})
+            out["runs"] += 1
+            out["summary"].append(common.run_summary(r))
+            for row in r["rows"] or []:
+                if row["solved_by"] == "mcs-based":
+                    c = row["confidence"]
+                    if row["solved"] and (c is None or c < t):
+                        vs.append(oracles.V("C13", "solved_below_threshold_after_scoring_fault", "model_fault", "scoring failed at call %d, threshold %r: %s returned solved with confidence %r" % (k, t, row["input_reaction"], c)))
     out["violations"] = vs
     if separating:
         out["nontrivial"] = "%016x" % H(rows_in, plan["config"], ts)
